@@ -27,10 +27,10 @@ def _load():
     return sc, build, models, sqw, rw
 
 
-def make_inputs(sc, models, n_runs, title, name, shape_syms):
+def make_inputs(sc, models, n_runs, title, name, shape_syms, en_dtype='float64'):
     exps = [models.SqwIXExperiment(
         run_id=i, efix=sc.scalar(1.2 + i, unit='meV'), emode=models.EnergyMode.direct,
-        en=sc.array(dims=['energy_transfer'], values=[3.0, 4.0], unit='meV'), psi=sc.scalar(1.2, unit='rad'),
+        en=sc.array(dims=['energy_transfer'], values=[3.0, 4.0], unit='meV', dtype=en_dtype), psi=sc.scalar(1.2, unit='rad'),
         u=sc.vector([0.0, 1.0, 0.0]), v=sc.vector([1.0, 1.0, 0.0]), omega=sc.scalar(1.4, unit='rad'), dpsi=sc.scalar(46.0, unit='deg'),
         gl=sc.scalar(3.0, unit='rad'), gs=sc.scalar(-0.5, unit='rad'), filename=name, filepath='/' + name) for i in range(n_runs)]
     inst = models.SqwIXNullInstrument(name=name, source=models.SqwIXSource(name='src' + name, target_name='tgt', frequency=sc.scalar(14.0, unit='Hz')))
@@ -96,6 +96,7 @@ def decode_top(records):
 def job(j, seed):
     order, n_runs, strings, unwind, *more = j
     rows = more[0] if more else None  # a selection of pixel rows (the row count of the pixel block); None = the 9 default rows
+    en_dtype = more[1] if len(more) > 1 else 'float64'  # element type of the energy grids of the runs as supplied
     from symex import core as C
     from symex.core import R
     from . import sqwsym
@@ -107,8 +108,8 @@ def job(j, seed):
     sqwsym.SYM['unwind'] = max(unwind, 9) + 1
     title, name = strings
     obs, cands = [], []
-    tag = f'order={"+".join(order)},runs={n_runs},strings={strings!r}' + (f',rows={len(rows)}' if rows else '')
-    case = {'order': list(order), 'n_runs': n_runs, 'title': title, 'name': name, 'rows': list(rows) if rows else None}
+    tag = f'order={"+".join(order)},runs={n_runs},strings={strings!r}' + (f',rows={len(rows)}' if rows else '') + ('' if en_dtype == 'float64' else f',en {en_dtype}')
+    case = {'order': list(order), 'n_runs': n_runs, 'title': title, 'name': name, 'rows': list(rows) if rows else None, 'en_dtype': en_dtype}
     N = C.sym_var('N', sign='0+', is_int=True)
     chunk = C.sym_var('chunk', sign='+', is_int=True)
     shape = [C.sym_var(f's{k}', sign='+', is_int=True) for k in range(2)]
@@ -122,7 +123,7 @@ def job(j, seed):
         sqwsym.SHAPE_OBLIGATIONS.clear()
         f = SymFile()
         b = build.SqwBuilder(f, title, byteorder=None)
-        exps, inst, sample, dnd = make_inputs(sc, models, n_runs, title, name, shape)
+        exps, inst, sample, dnd = make_inputs(sc, models, n_runs, title, name, shape, en_dtype)
         for c in order:
             if c == 'pix':
                 if rows:
@@ -339,6 +340,9 @@ def run(chk):
     jobs.append((('dnd', 'pix'), 1, strs[0], K, allrows[:8]))
     jobs.append((('pix', 'sample'), 1, strs[0], K, allrows[:1]))
     jobs.append((('pix',), 2, strs[0], K, allrows + allrows[:1]))
+    # energy grids supplied in another element type (the file stores doubles)
+    jobs.append((('pix', 'dnd'), 2, strs[0], K, None, 'float32'))
+    jobs.append((('pix',), 1, strs[0], K, None, 'int64'))
     run_jobs(chk, job, jobs)
     run_jobs(chk, job_byteorder, [0])
     chk.bounds = {'pixels N': f'any N >= 0 with N <= {K}*chunk (chunk loop unrolled <= {K} iterations, unwinding checked)', 'chunk': 'any integer >= 1',
@@ -382,7 +386,7 @@ def replay_real(case):
 
     from scippneutron.io.sqw import _models as models
 
-    exps, inst, sample, dnd = me.make_inputs(sc, models, n_runs, title, name, [float(s) for s in shape])
+    exps, inst, sample, dnd = me.make_inputs(sc, models, n_runs, title, name, [float(s) for s in shape], case.get('en_dtype') or 'float64')
     rng = np.random.default_rng(0)
     pix = sc.DataArray(sc.array(dims=['pixel'], values=rng.random(N), variances=rng.random(N), unit='count'),
                        coords={k: sc.array(dims=['pixel'], values=rng.random(N), unit=u) for k, u in me.PIX_UNITS.items() if k not in ('signal', 'error')})
